@@ -73,7 +73,14 @@ func (p *clientConnPool) GetClientConn(req *http.Request, addr string, dialOnMis
 		traceGetConn(req, addr)
 		call := p.getStartDialLocked(req.Context(), addr)
 		p.mu.Unlock()
-		<-call.done
+		// The dial is shared and runs under the context of the request that
+		// started it: a request whose own context ends stops waiting for it
+		// (the dial goes on for the others).
+		select {
+		case <-call.done:
+		case <-req.Context().Done():
+			return nil, req.Context().Err()
+		}
 		if shouldRetryDial(call, req) {
 			continue
 		}
